@@ -15,7 +15,8 @@
    nickname by IsValidNick, else on GetNick().  The theorems about runs of collisions
    therefore speak about servers that name the nickname they refuse, as 433/436/437 do
    (sessions of Spec/PingNickSpec.v); C17_collision_any_numeric covers every other numeric. *)
-Require Import Bytes Names PingNick PingNickSpec PingNickProofs.
+Require Import Bytes AMap Tags Event CodecSpec.
+Require Import Names PingNick PingNickSpec PingNickProofs PingNickWire.
 
 (* PING: exactly one output, a PONG with the last parameter as its only parameter, handed
    to Client.write; in any state of a session. *)
@@ -28,6 +29,19 @@ Theorem C17_pong_in_session : forall cfg st src params,
   pn_step cfg st (mkEvent s_PING src params) = Ok (st, [cmd_pong (last_param params)]).
 Proof. exact step_ping. Qed.
 Print Assumptions C17_pong_in_session.
+
+(* The same token at the peer.  For every PING whose token (Event.Last()) is wire-valid -
+   valid UTF-8 without CR / LF; it may be empty, contain spaces, start with ':' - the single
+   output, serialised by Event.Bytes and read back by the parser (Model/Event.v, the codec
+   model of C01-C03), is PONG with exactly that token as its only parameter.  Tokens that
+   are not wire-valid are altered by Event.Bytes (Example not_wire_valid_is_altered). *)
+Theorem C17_pong : forall params,
+  wire_valid (last_param params) = true ->
+  exists o, handle_ping params = [o] /\ o_route o = Direct /\
+            parse_event (event_bytes (wevent_of o)) =
+              Ok (Some (mkWEvent None None s_PONG [last_param params])).
+Proof. exact ping_pong_wire. Qed.
+Print Assumptions C17_pong.
 
 (* ... and it neither waits for nor moves the flood limiter, whatever the limiter's state
    (writeDelay, time since the last write), Config.AllowFlood and the event's length. *)
